@@ -70,6 +70,20 @@ fn order_of(m: &Value) -> Order<ExchangeIndex, InstrumentIndex, OrderState<Asset
     }
 }
 
+/// Exchange timestamps of this driver carry microseconds (as venues state them): spec time t is
+/// 2020-01-01 + t s + (137 + 3 t) us.  The projection accepts only exactly such instants: a held
+/// timestamp that was rounded, truncated or shifted is not a timestamp any message delivered.
+fn time(t: i64) -> chrono::DateTime<chrono::Utc> {
+    vh::util::time(t) + chrono::Duration::microseconds(137 + 3 * t)
+}
+fn untime_exact(d: chrono::DateTime<chrono::Utc>) -> Value {
+    let t = vh::util::untime(d);
+    if d == time(t) { json!(t) } else { json!(format!("not a delivered instant: {d:?}")) }
+}
+fn untime(d: chrono::DateTime<chrono::Utc>) -> i64 {
+    vh::util::untime(d)
+}
+
 /// arrival clock: `time_received` follows delivery order (later than any exchange time), as on a live feed
 static ARRIVAL: std::sync::atomic::AtomicI64 = std::sync::atomic::AtomicI64::new(1000);
 
@@ -142,11 +156,11 @@ fn project(st: &world2::State) -> Value {
             "bal" => match &st.assets.asset_index(&AssetIndex(n)).balance {
                 None => none(),
                 // total and free are delivered equal: a held pair that is not one delivered value shows as a string
-                Some(b) => json!({"has": true, "t": untime(b.time), "v": if b.value.total == b.value.free { int_or_str(b.value.total) } else { json!("torn") }}),
+                Some(b) => json!({"has": true, "t": untime_exact(b.time), "v": if b.value.total == b.value.free { int_or_str(b.value.total) } else { json!("torn") }}),
             },
             "l1" => {
                 let l1 = &st.instruments.instrument_index(&InstrumentIndex(n)).data.l1;
-                let shaped = |v: Value| json!({"has": true, "t": untime(l1.last_update_time), "v": v});
+                let shaped = |v: Value| json!({"has": true, "t": untime_exact(l1.last_update_time), "v": v});
                 let special = |p: Decimal| [dec(6), dec(7), dec(8)].contains(&p);
                 match (&l1.best_bid, &l1.best_ask) {
                     // the default top of book carries the epoch; delivered ones carry a positive time
@@ -159,13 +173,13 @@ fn project(st: &world2::State) -> Value {
             }
             "lt" => match &st.instruments.instrument_index(&InstrumentIndex(n)).data.last_traded_price {
                 None => none(),
-                Some(p) => json!({"has": true, "t": untime(p.time), "v": int_or_str(p.value)}),
+                Some(p) => json!({"has": true, "t": untime_exact(p.time), "v": int_or_str(p.value)}),
             },
             _ => {
                 let cid = ClientOrderId::new(item.trim_start_matches("ord_"));
                 match st.instruments.instrument_index(&InstrumentIndex(n)).orders.0.get(&cid).and_then(|o| o.state.open_meta()) {
                     None => none(),
-                    Some(o) => json!({"has": true, "t": untime(o.time_exchange), "v": int_or_str(o.filled_quantity)}),
+                    Some(o) => json!({"has": true, "t": untime_exact(o.time_exchange), "v": int_or_str(o.filled_quantity)}),
                 }
             }
         };
